@@ -106,12 +106,18 @@ func OrderedMap.Clear
 -- iteration: the consumer runs with the map's lock released (it may call back into the map, or into a set that is being
 -- read by another iteration: holding the read lock across it deadlocks with a queued writer or a second map); the lock is
 -- only taken to read the next link
+-- ... and the next link is read AFTER the consumer has returned: the element handed out next is the successor the last
+-- consumed element has then (a successor remembered from before the call may have been removed by the consumer - a hook
+-- unhooking the next hook - and must not be visited)
 func OrderedMap.ForEach
   requires unlocked(o.mutex)
   callback consumer(k, v) (cont)
     opt nolocks
   modifies everything
-  loop 1 invariant o != nil && unlocked(o.mutex)
+  ghost local prev Int        -- the element consumed last (ghost; 0: none yet)
+  ghost at entry: prev = 0
+  ghost after call OrderedMap.ForEach#consumer: prev = currentEntry
+  loop 1 invariant o != nil && unlocked(o.mutex) && (prev != 0 ==> currentEntry == as(*Element, prev).next)
   ensures o != nil ==> unlocked(o.mutex)
 
 func OrderedMap.ForEachReverse
@@ -119,6 +125,9 @@ func OrderedMap.ForEachReverse
   callback consumer(k, v) (cont)
     opt nolocks
   modifies everything
-  loop 1 invariant o != nil && unlocked(o.mutex)
+  ghost local prev Int
+  ghost at entry: prev = 0
+  ghost after call OrderedMap.ForEachReverse#consumer: prev = currentEntry
+  loop 1 invariant o != nil && unlocked(o.mutex) && (prev != 0 ==> currentEntry == as(*Element, prev).prev)
   ensures o != nil ==> unlocked(o.mutex)
 @*/
